@@ -49,6 +49,8 @@ def scriptedEnv (orc : List FrameOracle) (slots : List Bytes) (slotErr : Bytes) 
   std := fun i _ => (orc[i]?).bind (·.std)
   forward := fun _ req => match req with
     | 0xFE :: _ => none
+    -- code 0xFC: the underlying agent hangs up without answering (`io.EOF` from `Forward`)
+    | 0xFC :: _ => none
     -- code 0xFD: the reply is the rest of the request verbatim (any reply bytes can be scripted)
     | 0xFD :: rest => some rest
     | _ => some (0xAA :: req)
@@ -134,6 +136,45 @@ def handleServe (op : String) (args : List String) (impl : Option (List String))
             let ideal := if pk then Spec.C13.unitRes (base.addHardCert 0 blob comment) else .connErr
             mk [showLog log, showUnit r] [showLog log, showUnit ideal]
           | _, _, _ => some badProto
+        | "addhardold", [blobS, pk1S, pk2S] =>
+          -- the old wire format: code 31 and the bare key blob; the served agent receives the key
+          -- with an empty comment, exactly as for the new format with an empty comment
+          match bytesOfHex blobS, boolOf01 pk1S, boolOf01 pk2S with
+          | some blob, some pk1, some pk2 =>
+            let env := { base with pkOK := fun b => if b = blob then pk1 else pk2 }
+            let req : Bytes := 31 :: blob
+            let call : Option (Bytes × Bytes) :=
+              if pk1 then some (blob, []) else
+              match decAddHardCert req with
+              | some (kb, cm) => if env.pkOK kb then some (kb, cm) else none
+              | none => none
+            let log := match call with
+              | some (kb, cm) => ["addhard " ++ hexOfBytes kb ++ " " ++ hexOfBytes cm]
+              | none => []
+            let showH := fun (h : Handled) => match h with
+              | .reply b | .replyLogged b => "ok " ++ hexOfBytes b
+              | .fail => "connerr"
+            let ideal : Handled := match call with
+              | some (kb, cm) => .replyLogged (textOr (base.addHardCert 0 kb cm) success)
+              | none => .fail
+            mk [showLog log, showH (handle env 0 req)] [showLog log, showH ideal]
+          | _, _, _ => some badProto
+        | "addhardseq", [blobS, commentS] =>
+          -- the current format with a comment, then the old format for the same key on the same
+          -- connection: two calls, the second with an empty comment
+          match bytesOfHex blobS, bytesOfHex commentS with
+          | some blob, some comment =>
+            let env := { base with pkOK := fun b => b = blob }
+            let r1 := Rpc.addHardCert env 0 blob comment
+            let showH := fun (h : Handled) => match h with
+              | .reply b | .replyLogged b => "ok " ++ hexOfBytes b
+              | .fail => "connerr"
+            let log := ["addhard " ++ hexOfBytes blob ++ " " ++ hexOfBytes comment, "addhard " ++ hexOfBytes blob ++ " "]
+            let res := showUnit r1 ++ ";" ++ showH (handle env 1 (31 :: blob))
+            let ideal := showUnit (Spec.C13.unitRes (base.addHardCert 0 blob comment)) ++ ";" ++
+              showH (.replyLogged (textOr (base.addHardCert 1 blob []) success))
+            mk [showLog log, res] [showLog log, ideal]
+          | _, _ => some badProto
         | "listslots", [_tag] =>
           let (r, sl) := Rpc.listSlots base 0
           let show' := fun (r : Rpc.CallRes (List Bytes)) (sl : List Bytes) => (match r with
